@@ -198,13 +198,14 @@ def run_pair(setup_name, reader, writer, k, want_story=False):
     problems found, the log as text"""
     s = sched.Scheduler()
     c = _collection(s, SETUPS[setup_name][0])
+    results = {}
 
     def body_for(op, stop_first):
         def body(w):
             try:
                 if stop_first:
                     s.hook(('yield',))
-                op.fn(c)
+                results[w.idx] = op.fn(c)
             except Exception as e:  # pylint: disable=broad-except
                 w.events.append((type(e).__name__, '%s: %s' % (type(e).__name__, e), e))
                 s.event('the operation RAISES', '%s: %s' % (type(e).__name__, e))
@@ -262,6 +263,7 @@ def run_pair(setup_name, reader, writer, k, want_story=False):
             break
     return {'status': status, 'before': before, 'problems': problems,
             'iterations': len(iters), 'contended': contended, 'windows': windows,
+            'results': results,
             'exceptions': [(w.idx, ev[1]) for w in s.workers for ev in w.events],
             'final_ids': list(c._store._documents.keys()),
             'story': sched.story(s, c._store, mark) if (problems or want_story) else None}
@@ -347,15 +349,26 @@ DELETE_ONE_2 = Op('delete_one of 2', "c.delete_one({'_id': 2})",
                   lambda c: c.delete_one({'_id': 2}), deletes=(2,))
 
 
-# the smallest instance of the known class `concurrent-delete-keyerror` (witness of the finding)
+# the smallest instance of the class `concurrent-delete-keyerror` (witness of the finding, repaired
+# in the library by a0040b0: `_delete` removes through `store.discard`, which tells whether it
+# removed something)
 def delete_delete_witness(k=None, any_problem=False):
     """two threads delete the same document; the first is preempted between reading the
     collection and deleting.  Returns (k, result) of a preemption point at which a thread raises
-    KeyError (any_problem: at which anything at all goes wrong), or (None, None)"""
+    KeyError (any_problem: at which anything at all goes wrong — an exception, a deadlock, a
+    writer admitted during an iteration, or the two calls not reporting one removed document
+    between them), or (None, None)"""
     a = b = DELETE_ONE_2
     found = (None, None)
     for kk in ([k] if k is not None else range(60)):
         res = run_pair('plain', a, b, kk, want_story=True)
+        if res['status'] == 'completed' and not res['exceptions']:
+            counts = [getattr(res['results'].get(t), 'deleted_count', None) for t in (0, 1)]
+            if sorted(counts, key=repr) != [0, 1]:
+                res['problems'].append({
+                    'clause': 'a delete counts what it removes',
+                    'what': 'two delete_one of the one document _id 2 report deleted_count %r '
+                            'and %r: exactly one of them removed it' % tuple(counts)})
         for p in res['problems']:
             if p.get('class') == 'concurrent-delete-keyerror':
                 if p['thread'] == 0:       # thread 1 ran from its beginning to its end in one go
